@@ -31,7 +31,7 @@ func init() {
 				maxLine, maxK, maxV = 7, 7, 5
 			}
 			for n := 0; n <= maxLine; n++ {
-				for a := 0; a < 6; a++ {
+				for a := 0; a < 7; a++ {
 					jobs = append(jobs, Job{Pkg: "rules", Func: "verifC12NewRule", Args: []int64{int64(n), int64(a)}})
 				}
 			}
@@ -56,7 +56,7 @@ func init() {
 		},
 		MustReach: []string{"c12.nothing", "c12.error", "c12.rule", "c12.kernels", "c12.option"},
 		Bounds: map[string]string{
-			"quick":    "NewRule on lines of 0..5 symbolic bytes over six alphabets (network, hosts, cosmetic, regular-expression/escape, comment and option syntax); the parsing helpers (parseRuleText, findShortcut, splitWithEscapeCharacter, findCosmeticRuleMarker, isComment, ExtractHostname, effectiveTLDPlusOne, IsDomainName, IsProbablyIP, shouldMatchHostname, patternToRegexp up to 3 bytes) on 0..5 symbolic bytes; loadOption for every option name with a value of 0..3 symbolic bytes",
+			"quick":    "NewRule on lines of 0..5 symbolic bytes over seven alphabets (network, hosts, cosmetic, regular-expression/escape, comment and option syntax, all six ASCII white-space characters); the parsing helpers (parseRuleText, findShortcut, splitWithEscapeCharacter, findCosmeticRuleMarker, isComment, ExtractHostname, effectiveTLDPlusOne, IsDomainName, IsProbablyIP, shouldMatchHostname, patternToRegexp up to 3 bytes) on 0..5 symbolic bytes; loadOption for every option name with a value of 0..3 symbolic bytes",
 			"thorough": "lines and helper inputs up to 7 bytes, option values up to 5 bytes",
 		},
 		Outside:     []string{"lines longer than the bound (real-world lines are not covered)", "regexp.Compile/MatchString internals and netip text parsing (contract stubs)", "findRegexpShortcut on symbolic regular expressions (its regexp.ReplaceAllString calls are executed natively on concrete input only; paths that reach them with symbolic input are cut and counted)", "inertness of blank/comment/rejected lines inside lists (C11 harness)", "patternToRegexp (C03a) and Match (C03/C04/C05)"},
